@@ -220,7 +220,8 @@ def run_names(res, case):
     from DocumentTemplate import HTML
     n = 0
     for name in ('item', 'key', 'index', 'count', 'n', 'var', 'number',
-                 'mean', 'x_y'):
+                 'mean', 'x_y', 'gr\xf6\xdfe', 'a\xf1o', '\u0446\u0435\u043d\u0430',
+                 'col\u0663', 'X9', 'a.b'):
         body = '|'.join('<dtml-var %s-%s>' % (s, name) for s in STATS)
         for mapping in (0, 1):
             t = HTML('<dtml-in seq%s><dtml-if sequence-end>%s</dtml-if>'
